@@ -8,6 +8,8 @@
 //!   width 1,2,4,8  : overwrite `width` bytes at `offset` with `value` (little-endian)
 //!   width 0x82/0x84: overwrite 2/4 bytes big-endian
 //!   width 0xFF     : insert `value & 0xFF` repeated (value >> 8) times at offset
+//!   width 0xFE/0xFD: replace the text token at offset (up to the next TAB CR LF , = ; space) by `value` in decimal (u64 / i64)
+//!   width 0xFC     : delete the text token at offset
 //! progress: the index of the case in flight is written here before each case so that a process
 //! death (allocation failure, stack overflow) is attributable and the batch resumable.
 use crate::json::J;
@@ -198,6 +200,22 @@ fn mutate(seed: &[u8], off: usize, width: u8, value: u64) -> Vec<u8> {
                     b[off + i] = be[8 - w + i];
                 }
             }
+        }
+        0xFC | 0xFD | 0xFE => {
+            let at = off.min(b.len());
+            let mut end = at;
+            while end < b.len() && !matches!(b[end], b'\t' | b'\r' | b'\n' | b',' | b'=' | b';' | b' ') {
+                end += 1;
+            }
+            let text = match width {
+                0xFE => value.to_string(),
+                0xFD => (value as i64).to_string(),
+                _ => String::new(),
+            };
+            let tail = b.split_off(end);
+            b.truncate(at);
+            b.extend_from_slice(text.as_bytes());
+            b.extend(tail);
         }
         0xFF => {
             let n = ((value >> 8) as usize).min(1 << 20);
